@@ -13,7 +13,7 @@ IMPORTS = ("From DC Require Import Model.Base Model.Loc Model.Bio Model.Pattern 
 CASE_TYPE = "case13"
 CHECKER = "check13"
 SHOW = "model13"
-RULE = ("circular problems on 24-45 bp sequences with whole-sequence and located constraints (AvoidPattern on both strands, windowed "
+RULE = ("circular problems on 24-45 bp sequences with whole-sequence and located constraints (AvoidChanges by location, whole sequence, indices near the origin, with allowances; AvoidPattern on both strands, windowed "
         "GC, EnforceSequence, frozen zones), breaches seeded across the origin; plus direct cases for edit mirroring, specification "
         "shifting and circular evaluations; non-trivial = a breach spans the junction before solving; distinct by JSON text")
 
@@ -34,6 +34,25 @@ def whole(kwd, n):
     if loc is None:
         return True, 0
     return (loc[0], loc[1]) == (0, n), loc[2]
+
+
+def gen_keep(rng, n):
+    """keyword arguments of an AvoidChanges for a circular sequence of length n"""
+    r = rng.random()
+    me = rng.choice([0, 0, 1, 2])
+    if r < 0.3:
+        d = dict(location=rloc(rng, n, strands=(0,), minlen=3))
+    elif r < 0.5:
+        d = dict(location=rng.choice([None, (0, n, 0)]))
+    else:
+        # indices, often touching the origin (0, 1, n-1): non contiguous, so that fewer indices than the
+        # span of their location
+        pool = [0, 1, 2, n - 1, n - 2] + [rng.randrange(n) for _ in range(4)]
+        idx = sorted(set(rng.sample(pool, rng.choice([1, 2, 3, 4]))))
+        d = dict(indices=tuple(idx))
+    if me:
+        d["max_edits"] = me
+    return kw(**d)
 
 
 def gen_circular(rng):
@@ -58,10 +77,22 @@ def gen_circular(rng):
                 seq[n - 5:] = x * 5
                 seq[:5] = x * 5
         else:
-            if rng.random() < 0.4:
+            r2 = rng.random()
+            if r2 < 0.3:
                 cs.append(("AvoidChanges", kw(location=rloc(rng, n, strands=(0,), minlen=8), max_edits=rng.choice([1, 2]))))
-            else:
+            elif r2 < 0.6:
                 cs.append(("AvoidChanges", kw(location=rloc(rng, n, strands=(0,), minlen=3))))
+            else:
+                cs.append(("AvoidChanges", gen_keep(rng, n)))
+    if rng.random() < 0.2:
+        # a breach across the origin whose only editable positions are next to positions protected by
+        # indices on the other side of the origin
+        p = rng.choice(["GGTCTC", "CGTCTC", "GAATTC", "ACGT"])
+        cut = rng.randint(1, len(p) - 1)
+        seq[n - cut:] = p[:cut]
+        seq[:len(p) - cut] = p[cut:]
+        prot = sorted(set(rng.sample(list(range(0, len(p) - cut)) + list(range(n - cut, n)), rng.randint(1, len(p) - 1))))
+        cs = [("AvoidPattern", kw(pattern=p, location=None)), ("AvoidChanges", kw(indices=tuple(prot)))]
     if rng.random() < 0.15:
         # an occurrence frozen by AvoidChanges near the origin: nothing can be edited there
         pat = rng.choice(["CGTCTC", "GGTCTC", "GAATTC"])
@@ -98,6 +129,8 @@ def impl_case(case):
         pr = dc.CircularDnaOptimizationProblem(seq, constraints=[build_spec(desc)], logger=None)
         if pr.sequence != seq:
             return dict(skipped="construction changed the sequence")
+        if len(case) > 3:
+            pr.sequence = case[3]        # evaluated after edits (AvoidChanges: against the recorded target)
         evs = pr.constraints_evaluations(autopass=False)
         return dict(term=spec_to_coq(pr.constraints[0]), evs=[ev_out(e) for e in evs.evaluations],
                     all_pass=bool(pr.all_constraints_pass(autopass=False)))
@@ -142,9 +175,18 @@ def impl_case(case):
                         if (st_ != -1 and w_ == pat_) or (st_ != 1 and w_ == rcs(pat_)):
                             bad.append("pattern %s occurs at %d inside its location %d-%d" % (pat_, i, a_, b_))
                             break
-                if d[0] == "AvoidChanges" and kwd.get("max_edits"):
-                    a_, b_ = kwd["location"][0], kwd["location"][1]
-                    edits = sum(1 for i in range(a_, b_) if start[i] != s[i])
+                if d[0] == "AvoidChanges":
+                    if kwd.get("indices") is not None:
+                        pos_ = list(kwd["indices"])
+                        a_, b_ = min(pos_), max(pos_) + 1
+                    else:
+                        a_, b_ = (0, len(s)) if kwd.get("location") is None else kwd["location"][:2]
+                        pos_ = list(range(a_, b_))
+                    edits = sum(1 for i in pos_ if start[i] != s[i])
+                    if edits > kwd.get("max_edits", 0) and kwd.get("indices") is not None:
+                        bad.append("%d edits at the indices %s protected by AvoidChanges(max_edits=%d)" % (edits, pos_, kwd.get("max_edits", 0)))
+                        continue
+                    kwd.setdefault("max_edits", 0)
                     if edits > kwd["max_edits"]:
                         if (a_, b_) == (0, len(s)):
                             bad.append("the edit allowance of a whole-sequence AvoidChanges is exceeded (%d edits, max_edits=%d)" % (edits, kwd["max_edits"]))
@@ -207,7 +249,7 @@ def coq_case(case, out):
     if k == "circeval":
         if "skipped" in o:
             return None
-        return "KCircEval %s %s %s %s" % (o["term"], cseq(case[2]), clist([civ(e) for e in o["evs"]]), cbool(o["all_pass"]))
+        return "KCircEval %s %s %s %s" % (o["term"], cseq(case[3] if len(case) > 3 else case[2]), clist([civ(e) for e in o["evs"]]), cbool(o["all_pass"]))
     return None
 
 
@@ -243,6 +285,17 @@ def gen_cases(rng, tier):
             loc = rloc(rng, n, minlen=2)
             desc = ("EnforceSequence", kw(location=loc, sequence="".join(rng.choice("ACGTNWS") for _ in range(loc[1] - loc[0]))))
         cases.append(("circeval", desc, "".join(seq)))
+    # AvoidChanges in every form (sub-region, whole sequence, indices near the origin, allowances),
+    # evaluated after a few edits: each of the three copies must count the edits of the sequence
+    for _ in range(90 * N):
+        n = rng.choice([12, 18, 24])
+        seq = rdna(rng, n)
+        desc = ("AvoidChanges", gen_keep(rng, n))
+        ed = list(seq)
+        for _ in range(rng.choice([0, 1, 1, 2, 3, 5])):
+            i = rng.choice([0, 1, n - 1, rng.randrange(n)])
+            ed[i] = rng.choice("ACGT")
+        cases.append(("circeval", desc, seq, "".join(ed)))
     for _ in range(120 * N):
         cases.append(("solve", json.dumps(gen_circular(rng), sort_keys=True)))
     return cases, {}
